@@ -175,18 +175,75 @@ def _base_local(f, op):
     return l if l is not None else -1
 
 
+def binding_calls(prog, f, which=("set_local", "set_token_subst")):
+    """calls of EvalContext::set_local / set_token_subst made by f - directly, or through a small helper of the same module that
+    binds a value and a text for it (`bind_argument_to_parameter(ctx, param, arg, value)`).  For a wrapped call a synthetic call
+    record is produced whose arguments are the caller's operands (a field of a helper parameter becomes that field of the
+    caller's operand), located at the caller's call"""
+    pat = re.compile(r"EvalContext::(%s)(::<.*)?$" % "|".join(which))
+    out = []
+    for bi, t in f.calls():
+        c = t.get("resolved") or t.get("callee") or ""
+        if pat.search(c):
+            out.append((bi, t))
+            continue
+        h = prog.fn(t.get("resolved") or "") if t.get("resolved_local") else None
+        if h is None or h.id == f.id or h.kind == "Closure" or h.id.rsplit("::", 1)[0] != f.id.rsplit("::", 1)[0] or len(h.blocks) > 12:
+            continue
+        inner = [(b2, t2) for b2, t2 in h.calls() if pat.search(t2.get("resolved") or t2.get("callee") or "")]
+        for b2, t2 in inner:
+            args = []
+            for a in t2["args"]:
+                args.append(_map_to_caller(h, a, t["args"]))
+            if any(a is None for a in args):
+                continue
+            out.append((bi, {"callee": t2.get("callee"), "resolved": t2.get("resolved"), "args": args, "arg_tys": t2.get("arg_tys"), "span": t["span"],
+                             "target": t.get("target"), "dest": t["dest"], "resolved_local": t2.get("resolved_local"), "wrapped_in": h.id}))
+    return out
+
+
+def _map_to_caller(h, op, caller_args, depth=0):
+    """the caller's operand that a helper's operand stands for: a parameter, a reborrow of one, or a field of one"""
+    pl = op_place(op)
+    if pl is None or depth > 6:
+        return None
+    l, proj = pl["l"], list(pl.get("p") or [])
+    if 1 <= l <= h.arg_count:
+        ca = caller_args[l - 1] if l - 1 < len(caller_args) else None
+        cpl = op_place(ca) if ca is not None else None
+        if cpl is None:
+            return None if proj else ca
+        return {"copy": {"l": cpl["l"], "p": list(cpl.get("p") or []) + proj}}
+    ds = h.full_defs(l)
+    if len(ds) == 1 and ds[0][0] == "call" and re.search(r"(Clone::clone|ToOwned::to_owned|ToString::to_string)$", ds[0][2].get("callee") or "") and ds[0][2]["args"] and not proj:
+        return _map_to_caller(h, ds[0][2]["args"][0], caller_args, depth + 1)      # a copy of the caller's value
+    if len(ds) != 1 or ds[0][0] != "stmt" or ds[0][3]["k"] != "assign":
+        return None
+    rv = ds[0][3]["rv"]
+    if rv["k"] == "use":
+        inner = _map_to_caller(h, rv["op"], caller_args, depth + 1)
+    elif rv["k"] == "ref":
+        inner = _map_to_caller(h, {"copy": rv["place"]}, caller_args, depth + 1)
+    else:
+        return None
+    ipl = op_place(inner) if inner is not None else None
+    if ipl is None:
+        return inner if not proj else None
+    return {"copy": {"l": ipl["l"], "p": list(ipl.get("p") or []) + proj}}
+
+
 def substitution_rules(run):
     prog = run.prog
     f = None
     for name in ("instruction::resolve_instruction_match_inner", "instruction::resolve_instruction_match"):
         fs = prog.find(name)
-        if fs and _calls(fs[0], "EvalContext::set_token_subst"):
+        if fs and binding_calls(prog, fs[0], ("set_token_subst",)):
             f = fs[0]
     if f is None:
         run.violation(R, R + "|subst|anchor", "-", "mechanism not found: the function binding rule arguments (set_token_subst)")
         return
-    sl = _calls(f, "EvalContext::set_local")
-    st_ = _calls(f, "EvalContext::set_token_subst")
+    sl = binding_calls(prog, f, ("set_local",))
+    st_ = binding_calls(prog, f, ("set_token_subst",))
     ok = len(sl) == 2 and len(st_) == 2
     why = "%d value bindings, %d text bindings" % (len(sl), len(st_))
     if ok:
@@ -199,6 +256,14 @@ def substitution_rules(run):
                 continue
             tb, tt = mate[0]
             # unconditional: no way from the value binding to the next argument that avoids the text binding
+            if tb == lb and tt.get("wrapped_in") and tt.get("wrapped_in") == lt.get("wrapped_in"):
+                # both are made by one call of a straight-line helper
+                h_ = prog.fn(tt["wrapped_in"])
+                if h_ is not None and not any(h_.blocks[b_]["term"]["k"] == "switch" for b_ in h_.reachable()):
+                    if not re.search(r"\.excerpt$", deep(f, tt["args"][2], 5)):
+                        ok = False
+                        why = "the text recorded for a parameter is `%s`, not the argument's own excerpt" % deep(f, tt["args"][2], 5)[:80]
+                    continue
             seen = set()
             work = [lt["target"]]
             while work:
@@ -497,7 +562,7 @@ def argument_context_rules(run, R="ASM"):
                 bad.append("%s: an argument is evaluated in `%s`, not in the caller's context" % (f.loc(t["span"]), ctx_arg(t)))
         if not argev or not nested:
             bad.append("argument evaluations not found (expr=%d nested=%d)" % (len(argev), len(nested)))
-        sets = [(bi, t) for bi, t in f.calls() if re.search(r"EvalContext::(set_local|set_token_subst)$", t.get("resolved") or t.get("callee") or "")]
+        sets = binding_calls(run.prog, f)
         if len(sets) < 4 or any(deep(f, t["args"][0], 4) != NEW for _, t in sets):
             bad.append("parameters are not all bound (value and text) into the rule's context")
         ok = not bad
